@@ -239,7 +239,7 @@ CHECKS['C19'] = dict(
     technique='contract-based deductive verification of the lookup kernels (pyvc, z3/cvc5 strings with str.replace_all '
               'and an uninterpreted casefold), of chain priority lookup and of add_sys search order; bounded differential test of the four backends',
     text='Zip, VPK and in-memory _file_exists/_get_file are proved, for every name and every table, to look the file up under the '
-         'single normal form fold(name with backslashes turned into slashes; the in-memory backend through its real _clean_path with os.path.normpath uninterpreted, and proved to hand back the stored entry of that key) and to raise FileNotFoundError exactly when '
+         'single normal form fold(name with backslashes turned into slashes; the in-memory backend through its real _clean_path with os.path.normpath uninterpreted, and proved to hand back the stored entry of that key; AST shape obligations tie its constructor and both opens to the same key function) and to raise FileNotFoundError exactly when '
          'that key is absent; FileSystemChain._get_file is proved (three symbolic members with arbitrary prefixes) to '
          'return the first member, in order, that has the prefix-joined name, and add_sys to put a priority member first '
          'in the search order (also when it is already mounted) and any other last. Folder walks, byte agreement between the '
